@@ -87,9 +87,13 @@ CLAIMED = {
          "checkmate and a score <= -32000 means the position is lost, in the sense of spec/Mate.v (unbounded forced mate over the bare rules); the bounded oracle the check "
          "evaluates implies that notion (C12_oracle_sound). This is the soundness half of 'keeps a forced mate' with the cache on; ply-relative scores blur the DISTANCE "
          "of a mate (the engine does prefer a mate in three to a mate in two now and then: witness in DESIGN.md), never its existence. Cache neutralised: ALL THREE clauses "
-         "as theorems (props/C12off.v, props/C12offchess.v) from C11, with the value characterisation. PARTIAL: with the cache ON, completeness of clauses 2-3 (that a mate "
-         "in two is always SEEN, that an avoidable mate in one is always avoided) is not proved and cannot be unconditionally: entries written under a repetition / fifty-move "
-         "draw of one line are reused on another line and the key ignores the clock (graph-history interaction); those are judged on the engine: committed mate corpus and "
+         "as theorems (props/C12off.v, props/C12offchess.v) from C11, with the value characterisation. (3) COMPLETENESS, cache on (props/C12seen.v): C12_quiet_mate_in_two_seen / _search — under key_inj (the key determines the position including clock and "
+         "repetition record) and seldepth < 254, a mate in two with a QUIET key move is always seen (score >= 32000, the chosen move forces mate) from any mate-sound, "
+         "short-mate-complete cache, both invariants re-established by every completed iteration of any depth (C12_seen_preserved); props/C12seenRefuted.v closes by "
+         "vm_compute that for a key move giving check the statement is FALSE of the model (alpha_beta probes with depth d, extends when in check, stores with d+1); "
+         "props/C12strict.v closes that the DISTANCE of a mate is not kept (mate in three preferred to mate in two on 1k6/8/2RK4/8/3Q4/8/8/8 w). PARTIAL: completeness of "
+         "clause 2 for checking key moves and of clause 3, and anything depending on graph-history interaction (the key ignores clock and path), are not theorems; those "
+         "are judged on the engine: committed mate corpus and "
          "12 000 (quick) / 400 000 (thorough) random sparse and maximal-mobility positions x 8-10 sequences of searches sharing the cache, every chosen move judged by a mate "
          "oracle (validated against the Coq oracle each run) and every mate score confirmed by an exhaustive memoised solver.",
          TB + "key_sem (a key collision never confuses a won/lost position with one that is not) and key injectivity for clause 1 are hypotheses; completeness of clauses 2-3 "
